@@ -43,13 +43,13 @@ Proof.
     destruct G as [y [Hy ->]]. apply SE; [exact Hid|apply (HI d y Hy)].
 Qed.
 
-Theorem R_DevInv nw P : stable nw P -> forall w w', R nw w w' -> DevInv P w -> DevInv P w'.
-Proof. intros S w w' HR. apply (RD_DevInv nw P S w w'), R_RD, HR. Qed.
+Theorem R_DevInv n nw P : stable nw P -> forall w w', R n nw w w' -> DevInv P w -> DevInv P w'.
+Proof. intros S w w' HR. apply (RD_DevInv nw P S w w'). eapply R_RD, HR. Qed.
 
 (** the invariant after any event action *)
 Corollary exec_DevInv nw P fuel uops a w :
   stable nw P -> DevInv P w -> DevInv P (exec_fact fuel uops a w nw).
-Proof. intros S HI. eapply R_DevInv; [exact S|apply R_exec_fact|exact HI]. Qed.
+Proof. intros S HI. eapply (R_DevInv MFull); [exact S|apply R_exec_fact; reflexivity|exact HI]. Qed.
 
 (** * helper facts about the part-rewriting map *)
 Lemma upd_item_same_shape pid f it :
@@ -190,7 +190,7 @@ Proof.
     + unfold t_map_slot. destruct slot; exact HI.
     + (* sink receives a part *)
       unfold t_accept_sink. cbv zeta.
-      match goal with |- ValInv (?y <| d_collected ::= _ |>) => assert (V : ValInv y) end.
+      match goal with |- ValInv (?y <| d_collected ::= _ |> <| d_delivered ::= _ |>) => assert (V : ValInv y) end.
       { apply dev_add_value_ValInv. exact HI. }
       exact V.
     + unfold t_buf_pop. destruct (d_buf x) as [|[t it] r]; [exact HI|]. destruct (0 <? _); exact HI.
@@ -233,9 +233,9 @@ Section Rel.
     destruct G as [x2 [H2 Q2]]. destruct (IH I2 d x2 H2) as [x' [H' Q']]. exists x'. split; [exact H'|eapply Q_trans; eauto].
   Qed.
 
-  Theorem R_rel w w' : R nw w w' -> DevInv Inv w ->
+  Theorem R_rel n w w' : R n nw w w' -> DevInv Inv w ->
     forall d x, aget d (f_devs w) = Some x -> exists x', aget d (f_devs w') = Some x' /\ Q x x'.
-  Proof. intro HR. apply RD_rel, R_RD, HR. Qed.
+  Proof. intro HR. apply RD_rel. eapply R_RD, HR. Qed.
 End Rel.
 
 (** * C05: parts leave a buffer in arrival order and never before their minimum delay *)
@@ -275,13 +275,13 @@ Theorem exec_fifo nw fuel uops a w d x :
   exists x', aget d (f_devs (exec_fact fuel uops a w nw)) = Some x' /\ fifo nw x x'.
 Proof.
   intro Hx.
-  apply (R_rel nw (fun _ => True) (fifo nw)) with (w := w).
+  apply (R_rel nw (fun _ => True) (fifo nw)) with (n := MFull) (w := w).
   - intro y. apply ff_same; reflexivity.
   - intros y1 y2 y3. apply ff_trans.
   - split; auto.
   - intros g f Pr y G _. apply (fifo_prim nw g f Pr y G).
   - intros pid f Hid y _. apply ff_same; [apply buf_keys_upd, Hid|reflexivity].
-  - apply R_exec_fact.
+  - apply R_exec_fact. reflexivity.
   - intros d0 y _. exact Logic.I.
   - exact Hx.
 Qed.
@@ -381,14 +381,14 @@ Theorem exec_acct nw fuel uops a w d x :
   exists x', aget d (f_devs (exec_fact fuel uops a w nw)) = Some x' /\ acct_rel nw x x'.
 Proof.
   intros HI Hx.
-  apply (R_rel nw AcctInv (acct_rel nw)) with (w := w); auto.
+  apply (R_rel nw AcctInv (acct_rel nw)) with (n := MFull) (w := w); auto.
   - intro y. split; [reflexivity|auto].
   - intros y1 y2 y3 [K1 A1] [K2 A2]. split; [congruence|]. intro K. destruct (A1 K) as [U1 S1].
     rewrite <- K1 in K. destruct (A2 K) as [U2 S2]. split; congruence.
   - apply stable_AcctInv.
   - intros g f Pr y G I. apply (acct_prim nw g f Pr y G I).
   - intros pid f Hid y _. split; [reflexivity|]. intros _. split; reflexivity.
-  - apply R_exec_fact.
+  - apply R_exec_fact. reflexivity.
 Qed.
 
 (** between two events the clock advances by [dt]: uptime grows by dt exactly while the processor is
